@@ -18,7 +18,14 @@ import (
 	"time"
 )
 
-const VerifDir = "/verif"
+// VerifDir is where evidence, replays and known_findings.json live: the
+// directory of run.sh (so that a snapshot run writes into its snapshot).
+var VerifDir = func() string {
+	if d := os.Getenv("VERIF_DIR"); d != "" {
+		return d
+	}
+	return "/verif"
+}()
 
 type death struct {
 	Unit   string `json:"unit"`
